@@ -13,8 +13,9 @@
   answer yes / no or raise.  Time only matters for the order of `last_accessed` stamps in the memory and is a
   logical clock.
 
-  Not modelled: the text analysis of `MHCDisplay.generate_peptide` (the display is a slot holding the current
-  fingerprint), NaN, `MHCPeptide.similarity`, `ToleranceRecord.recent_update`, memory import/export/prune_old,
+  Not modelled: the regular expressions, json parsing and md5 inside `MHCDisplay.generate_peptide` (an observation
+  arrives with its length, word ids and structure id; in `Sys` the display is a slot holding the current fingerprint,
+  which `Display.generate` fills), NaN, `MHCPeptide.similarity`, `ToleranceRecord.recent_update`, memory import/export/prune_old,
   `health`, wall-clock fields, message texts (a violation is its kind).
 -/
 namespace Operon.Immune
@@ -294,6 +295,60 @@ def trainThymus (cfg : ThymusCfg) (sd : Sds) (samples : List Peptide) : ThymusOu
       decide (cfg.varThr < sd.len / mean (samples.map (·.lenMean))) then .anergic
   else if samples.isEmpty then .raiseStats
   else .positive (profileOf cfg sd samples)
+
+/-! ### MHC display
+
+`MHCDisplay.record` / `record_canary_result` / `generate_peptide`.  The text analysis of an output (its length, the
+ids of its `\b\w+\b` words after lower-casing, the id of its detected structure) arrives with the observation; a hash
+is the set of ids it covers, as a bit mask (equal hashes iff equal sets: md5 prefixes are treated as injective).  The
+three sample standard deviations are the environment argument `Sds`.  Not modelled: an empty window together with
+`min_observations <= 0` (the code divides by zero). -/
+
+structure Ob where
+  /-- `obs.output` is truthy (neither `None` nor the empty string) -/
+  hasOutput : Bool
+  len : Nat
+  words : List Nat
+  struct : Nat
+  time : Rat
+  conf : Rat
+  /-- id of the error string when it is truthy -/
+  err : Option Nat
+
+structure Display where
+  windowSize : Int
+  minObs : Int
+  obs : List Ob
+  canaries : List Bool
+
+/-- `record`: append, then drop the oldest observation once if the window is over its size -/
+def Display.record (d : Display) (o : Ob) : Display :=
+  ⟨d.windowSize, d.minObs,
+    if d.windowSize < ((d.obs ++ [o]).length : Int) then (d.obs ++ [o]).drop 1 else d.obs ++ [o], d.canaries⟩
+
+def Display.recordCanary (d : Display) (passed : Bool) : Display :=
+  ⟨d.windowSize, d.minObs, d.obs, d.canaries ++ [passed]⟩
+
+/-- a set of small ids as a bit mask -/
+def bitsOf (l : List Nat) : Nat := l.foldl (fun acc i => acc ||| (1 <<< i)) 0
+
+def ratio (k n : Nat) : Rat := (k : Rat) / (n : Rat)
+
+/-- `generate_peptide` -/
+def Display.generate (d : Display) (sd : Sds) : Option Peptide :=
+  if (d.obs.length : Int) < d.minObs then none
+  else some
+    { lenMean := mean (d.obs.map fun o => (o.len : Rat))
+      lenStd := if 1 < d.obs.length then sd.len else 0
+      timeMean := mean (d.obs.map (·.time))
+      timeStd := if 1 < d.obs.length then sd.time else 0
+      confMean := mean (d.obs.map (·.conf))
+      confStd := if 1 < d.obs.length then sd.conf else 0
+      vocab := bitsOf (d.obs.flatMap fun o => if o.hasOutput then o.words else [])
+      struct := bitsOf ((d.obs.filter (·.hasOutput)).map (·.struct))
+      errRate := ratio (d.obs.filter (·.err.isSome)).length d.obs.length
+      canary := if d.canaries.isEmpty then none
+        else some (ratio (d.canaries.filter id).length d.canaries.length) }
 
 /-! ### Immune memory -/
 
